@@ -17,6 +17,7 @@ RULE = ('(a) rule-directed templates: one family per rewrite rule of _expr_simp 
         'fresh memo-free copy; widths and values are compared on 10 valuations (boundary + random), and on all 65536 valuations for '
         '8-bit two-variable templates in the thorough tier (512 in quick). A case = canonical input tree; non-trivial = the '
         'simplified tree differs structurally from the input (some rule fired).')
+RULE += ' Round 7: sibling terms identical except for nested constants that agree modulo 2^61-1, in the low half, or in all bits but the top one.'
 ASSUMPTIONS = ['irsem is the meaning of the IR (self-test at setup)', 'termination is decided as bounded progress: at most 2000+400*nodes calls of _expr_simp per top-level call']
 
 _counter = {'n': 0, 'limit': 0}
